@@ -144,3 +144,52 @@ def loc(fi: FuncInfo, node=None) -> str:
 def brief(tm) -> str:
     s = show(tm)
     return s if len(s) < 160 else s[:157] + "..."
+
+
+class Scan:
+    """flow-insensitive view of the whole package: every function analysed without inlining,
+    once per receiver class (the defining class and every in-package subclass)"""
+
+    def __init__(self, prog: Program, policy: t.Optional[Policy] = None):
+        self.prog = prog
+        self.eng = Engine(prog, policy or NoInline())
+        self.paths: t.Dict[t.Tuple[str, t.Optional[str]], t.List[Path]] = {}
+        self.errors: t.Dict[str, str] = {}
+        for q, fi in sorted(prog.functions.items()):
+            if fi.kind == "nested":
+                continue
+            recvs: t.List[t.Optional[str]] = [None]
+            if fi.cls is not None and fi.kind in ("method", "classmethod", "property"):
+                recvs = [fi.cls.qual] + [c for c in prog.subclasses(fi.cls.qual)
+                                         if c != fi.cls.qual and prog.lookup_method(c, fi.name) is fi]
+            for r in recvs:
+                try:
+                    self.paths[(q, r)] = self.eng.paths(fi, recv=r)
+                except AnalysisError as exc:
+                    self.errors[q] = str(exc)
+
+    def events(self, qual: str, recv: t.Optional[str] = None) -> t.List[Event]:
+        fi = self.prog.func(qual)
+        if recv is None and fi.cls is not None and fi.kind in ("method", "classmethod", "property"):
+            recv = fi.cls.qual
+        return all_events(self.paths.get((qual, recv), []))
+
+    def all(self) -> t.Iterator[t.Tuple[FuncInfo, t.Optional[str], Event]]:
+        for (q, r), ps in self.paths.items():
+            fi = self.prog.functions[q]
+            for e in all_events(ps):
+                yield fi, r, e
+
+    def callers_of(self, *quals: str) -> t.List[t.Tuple[FuncInfo, t.Optional[str], Event]]:
+        qs = set(quals)
+        out = []
+        for fi, r, e in self.all():
+            if e.kind == "call" and (any(f.qual in qs for f in e.targets)
+                                     or (e.sched and e.cb is not None and e.cb[0] in ("bound", "func") and e.cb[-1] in qs)):
+                out.append((fi, r, e))
+        return out
+
+    def require_clean(self, *quals: str):
+        for q in quals:
+            if q in self.errors:
+                raise AnalysisError(f"{q}: {self.errors[q]}")
